@@ -2,9 +2,11 @@
    (lockscript, delscript, periodscript, tokenscript) use.  Executable definitions only;
    lemmas about them are in Lib/RedisStoreFacts.v.
 
-   * store  : association list  key |-> (value, optional absolute expiry in ms) + a clock (ms).
-              A key whose expiry is <= clock is absent for every command (lazy expiry;
-              miniredis' FastForward deletes at ttl <= 0, real Redis one ms later).
+   * store  : association list  key |-> (value, optional absolute expiry in ms) + a clock (ms)
+              + the expiry convention [expiry_inclusive]: a key with expiry time t is absent for
+              every command (lazy expiry) when  t <= clock  (true: miniredis' FastForward deletes
+              at ttl <= 0)  resp.  t < clock  (false: real Redis' keyIsExpired is now > when, i.e.
+              one ms later).  Every theorem quantifies over this bit.
    * values : [bulk] = BInt z (the canonical decimal rendering of z) | BStr s (any byte
               string that is not a numeral, e.g. a lock id or "NX").
    * Lua    : dynamically typed values [lval]; numbers are exact rationals (Q, never
@@ -28,7 +30,7 @@ Definition bulk_eqb (a b : bulk) : bool :=
   end.
 
 Record entry := mkEntry { evalue : bulk; eexp : option Z }.
-Record rstate := mkR { rnow : Z; rdata : list (bulk * entry) }.
+Record rstate := mkR { rnow : Z; rdata : list (bulk * entry); expiry_inclusive : bool }.
 
 Inductive err :=
 | EExpire        (* invalid expire time in SET / SETEX *)
@@ -39,8 +41,11 @@ Inductive err :=
 | EConn.         (* store unreachable (used by the Go-level models) *)
 
 (* ------------------------------------------------------------------ store *)
-Definition live (now : Z) (e : entry) : bool :=
-  match eexp e with None => true | Some t => now <? t end.
+(* [before incl x t]: at time x an expiry time t has not been reached yet *)
+Definition before (incl : bool) (x t : Z) : bool := if incl then x <? t else x <=? t.
+
+Definition live (incl : bool) (now : Z) (e : entry) : bool :=
+  match eexp e with None => true | Some t => before incl now t end.
 
 Fixpoint find (k : bulk) (d : list (bulk * entry)) : option entry :=
   match d with
@@ -63,16 +68,16 @@ Fixpoint remove (k : bulk) (d : list (bulk * entry)) : list (bulk * entry) :=
 (* what every command sees *)
 Definition lookup (st : rstate) (k : bulk) : option entry :=
   match find k (rdata st) with
-  | Some e => if live (rnow st) e then Some e else None
+  | Some e => if live (expiry_inclusive st) (rnow st) e then Some e else None
   | None => None
   end.
 
 Definition store_put (st : rstate) (k : bulk) (e : entry) : rstate :=
-  mkR (rnow st) (put k e (rdata st)).
+  mkR (rnow st) (put k e (rdata st)) (expiry_inclusive st).
 Definition store_del (st : rstate) (k : bulk) : rstate :=
-  mkR (rnow st) (remove k (rdata st)).
+  mkR (rnow st) (remove k (rdata st)) (expiry_inclusive st).
 Definition advance (st : rstate) (ms : Z) : rstate :=
-  mkR (rnow st + ms) (rdata st).
+  mkR (rnow st + ms) (rdata st) (expiry_inclusive st).
 
 (* remaining time to live in ms of a live key, None = no expiry *)
 Definition pttl (st : rstate) (k : bulk) : option (option Z) :=
